@@ -22,17 +22,6 @@
 #include <iostream>
 #include <sstream>
 
-// Sanitizer defaults: distinguishable exit codes, no leak noise.
-extern "C" __attribute__((used, visibility("default"))) const char * __asan_default_options() {
-    return "exitcode=77:detect_leaks=0:abort_on_error=0:allocator_may_return_null=1:detect_stack_use_after_return=0";
-}
-extern "C" __attribute__((used, visibility("default"))) const char * __ubsan_default_options() {
-    return "print_stacktrace=1:halt_on_error=1:exitcode=78";
-}
-extern "C" __attribute__((used, visibility("default"))) const char * __tsan_default_options() {
-    return "exitcode=66:halt_on_error=0:report_signal_unsafe=0:second_deadlock_stack=0:history_size=4";
-}
-
 namespace osim {
 
 static void terminateHandler() {
@@ -94,6 +83,8 @@ static std::string executePlan(std::string const & planText) {
         rl.rlim_cur = rl.rlim_max = 0;
         setrlimit(RLIMIT_CORE, &rl);
         std::set_terminate(terminateHandler);
+        // heap layout is part of the plan: never inherit the allocator PRNG state of the long-lived parent
+        heapLayerConfigure((uint64_t)plan["heap_seed"].asInt(0), plan.has("heap_garbage") ? plan["heap_garbage"].asBool(true) : true);
         int rc = 9;
         try {
             rc = dispatch(plan);
